@@ -239,9 +239,12 @@ impl<H: DnsHandle> DnssecDnsHandle<H> {
             RrsigVerificationOutcome::Insecure | RrsigVerificationOutcome::Bogus => false,
         });
 
+        // An insecure authority section only settles the matter if it comes from a zone that the
+        // query name can be part of.
         if !authorities.is_empty()
-            && authorities.iter().all(|(_, rrset)| {
-                rrset.records.iter().all(|x| x.proof == Proof::Insecure)
+            && authorities.iter().all(|(key, rrset)| {
+                Name::zone_of(&key.name, &query.name)
+                    && rrset.records.iter().all(|x| x.proof == Proof::Insecure)
                     && rrset.signatures.iter().all(|x| x.proof == Proof::Insecure)
             })
         {
